@@ -68,10 +68,12 @@ def case(task):
             box = N * rel.param['dx']
             ms = max(float(ref['_momscale'].max())
                      + float(np.abs(ref['Ktrace']).max()) / box, 1e-6)
+            fwd = {}
             with gc.quiet():
                 for k in list(DTKEYS) + list(VALKEYS) + ['rho_n',
                                                          'fluxup3_n']:
                     val = rel[k]
+                    fwd[k] = np.array(val, copy=True)
                     rmax = float(np.abs(ref[k]).max())
                     # scale of a dt-quantity: the larger of its own size
                     # and the size of the terms that build it
@@ -87,10 +89,15 @@ def case(task):
                     res['refmax'][k] = rmax
                 for k in CONSTRAINTS:
                     val = rel[k]
+                    fwd[k] = np.array(val, copy=True)
                     sc = hs if k == 'Hamiltonian' else ms
                     res['err'].setdefault(k, []).append(
                         gc.err(val, np.zeros_like(val), sc))
                     res['refmax'][k] = sc
+            if N == Ns[0]:
+                res['order'] = gc.order_dependence(
+                    desc, seed, p, N, list(fwd), fwd, with_T=True,
+                    vacuum=vacuum)
     except Exception:      # noqa: BLE001
         import traceback
         res['raised'] = traceback.format_exc()[-600:]
@@ -133,6 +140,13 @@ def judge(run, task, res):
         run.violation(f"C06:raised:{desc[0]}", f"{tag}: {res['raised']}",
                       {'task': res['task']})
         return
+    for k, d in res.get('order', {}).items():
+        run.count('order_comparisons')
+        if not d <= 1e-9:
+            run.violation(f"C06:order-dependent:{k}",
+                          f"{tag}: {k} differs by {d:.2e} (relative) when "
+                          "the same keys are requested in reverse order on "
+                          "a fresh instance", {'task': res['task'], 'key': k})
     exact = desc[0] == 'ds'
     for k, (e_lo, e_hi) in res['err'].items():
         nontrivial = res['refmax'][k] > 1e-6
